@@ -867,9 +867,74 @@ class History(object):
                                 force={"target": (si_a, sh), "secret": rb(r, 20), "recipe": "wrong-value"})
                     n[0] += 1
 
+    def full_disk_scenario(self):
+        """The server is nearly full: client B names several shares in one allocation and is given only
+        the first, the others are REFUSED (neither allocated nor already there).  Space comes back and
+        client A allocates a refused share with its own upload secret while B's share is still in
+        progress.  B's secret must not work on A's upload (PATCH, abort); nor may a random one."""
+        from allmydata.storage.http_client import StorageClientImmutables
+        r = self.r
+        byname = {x.name: x for x in self.routes}
+        if "write_share_data" not in byname or "abort_share_upload" not in byname:
+            return
+        im = StorageClientImmutables(self.store.client)
+        ss = self.store.ss
+        size = 64
+        si = rb(r, 16)
+        self.sis.append(si)
+        asked = set(r.choice([(4, 6), (0, 1, 2), (1, 3), (2, 5, 7)]))
+        sec_b, sec_a = rb(r, 20), rb(r, 20)
+        ss.get_available_space = lambda: ss.allocated_size() + size + 50      # room for exactly one more share
+        try:
+            res_b = self.store.run(im.create(si, asked, size, sec_b, rb(r, 32), rb(r, 32)))
+        except Exception as e:      # noqa
+            self.ctx.count("legit-op-failed:" + type(e).__name__)
+            return
+        finally:
+            del ss.get_available_space                                          # space becomes available again
+        for sh in res_b.allocated:
+            self.uploads[(si, sh)] = sec_b
+            self.alloc[(si, sh)] = size
+            self.written[(si, sh)] = set()
+        refused = sorted(asked - set(res_b.allocated) - set(res_b.already_have))
+        self.ctx.count("full-disk:refused-shares", len(refused))
+        if not refused or not res_b.allocated:
+            return
+        try:
+            res_a = self.store.run(im.create(si, set(refused), size, sec_a, rb(r, 32), rb(r, 32)))
+        except Exception as e:      # noqa
+            self.ctx.count("legit-op-failed:" + type(e).__name__)
+            return
+        mine = sorted(res_a.allocated)
+        for sh in mine:
+            self.uploads[(si, sh)] = sec_a
+            self.alloc[(si, sh)] = size
+            self.written[(si, sh)] = set()
+        n = 0
+        for sh in mine:
+            # the owner's own secret keeps working (not part of the property: counted, not judged)
+            try:
+                self.store.run(im.write_share_chunk(si, sh, sec_a, 0, self.data_for(si, sh, size)[:8]))
+                self.written[(si, sh)] |= set(range(8))
+            except Exception as e:      # noqa
+                self.ctx.count("legit-op-failed:" + type(e).__name__)
+            for rname, secret, recipe in (("write_share_data", sec_b, "refused-allocators-secret"),
+                                          ("write_share_data", rb(r, 20), "wrong-value"),
+                                          ("abort_share_upload", sec_b, "refused-allocators-secret")):
+                if (si, sh) in self.uploads:
+                    self.attack("full-disk-%d" % n, byname[rname], force={"target": (si, sh), "secret": secret, "recipe": recipe})
+                    n += 1
+        # and the other way round: A's secret on the share B is still uploading
+        for sh in sorted(res_b.allocated):
+            if (si, sh) in self.uploads:
+                self.attack("full-disk-%d" % n, byname["write_share_data"],
+                            force={"target": (si, sh), "secret": sec_a, "recipe": "other-uploads-secret"})
+                n += 1
+
     def run(self, nsteps):
         self.setup()
         self.cross_upload_scenario()
+        self.full_disk_scenario()
         order = list(self.routes)
         self.r.shuffle(order)
         for step in range(nsteps):
